@@ -133,7 +133,7 @@ impl Engine for C19 {
              plus the declaration-structure programs (wrapper depth <= {}) and the well-scoped scope programs (depth <= {}). Every program is printed twice: plainly and with a comment after every identifier. Hover is requested at every offset of every resolved identifier; inlay hints for the whole file and for {} token-boundary sub-range. \
              non-trivial = every program; distinct by construction.",
             tier.pick(1, 3),
-            tier.pick(1, 3),
+            tier.pick(1, 2),
             tier.pick("every third", "every")
         )
     }
@@ -170,7 +170,7 @@ impl Engine for C19 {
             };
             hover_programs(|p| run(ctx, p, all));
             structure_programs(tier.pick(1, 3), |p| run(ctx, p, all));
-            for_each_path(tier.pick(1, 3), |_, path| {
+            for_each_path(tier.pick(1, 2), |_, path| {
                 for layout in 0..2 {
                     let p = well_scoped(&scope_program(path, 6, layout));
                     if !run(ctx, &p, false) {
